@@ -33,11 +33,11 @@ KEYS = tuple(FLOORS["quick"].keys())
 
 
 def plan(tier):
-    return {"shards": 4, "timeout": 600} if tier == "quick" else {"shards": 16, "timeout": 3000}
+    return {"shards": 4, "timeout": 600} if tier == "quick" else {"shards": 16, "timeout": 3400}
 
 
 def ncases(tier):
-    return 5000 if tier == "quick" else 25000
+    return 5000 if tier == "quick" else 100000
 
 
 def gen_case(rng, i):
